@@ -533,7 +533,47 @@ class _FakeCellAlloc:
             if attrs.get('partition') is not None and r['partition'] != attrs['partition']:
                 continue        # LdapObject.list: a None attribute is not part of the query
             out.append(self._out(key))
+        self._shadow_list(attrs, out)
         return out
+
+    def _shadow_list(self, attrs, out):
+        """The same listing through the REAL `CellAllocation.list` of treadmill.admin._ldap over a directory that
+        evaluates the search filter it sends (conjunction of attribute=value terms over the stored entries): the ids it
+        returns must be the ids of the reservations of that cell and partition (`self.list_diff` is read by the
+        monitor)."""
+        import re as _re
+        from treadmill.admin import _ldap
+        try:
+            fake = self
+
+            class _Dir(self._StubAdmin):
+                def paged_search(self, search_base=None, search_filter=None, search_scope=None, attributes=None,
+                                 dirty=False):
+                    terms = _re.findall(r'\(([^()=&]+)=([^()]*)\)', search_filter or '')
+                    res = []
+                    ca = _ldap.CellAllocation(fake._StubAdmin())
+                    for key, r in fake.store.items():
+                        raw = {k_: v_ for k_, v_ in r.items() if k_ not in ('_id', 'assignments')}
+                        entry = _ldap._remove_empty(ca.to_entry(raw))      # pylint: disable=protected-access
+                        ok = True
+                        for a_, v_ in terms:
+                            if a_.lower() == 'objectclass':
+                                continue
+                            if v_ not in [str(x_) for x_ in entry.get(a_, [])]:
+                                ok = False
+                        if ok:
+                            res.append({'dn': ca.dn([key[0], key[1]]), 'attributes': entry})
+                    return res
+            if not all(isinstance(v_, str) or v_ is None for v_ in attrs.values()):
+                return
+            got = _ldap.CellAllocation(_Dir()).list(dict(attrs))
+            want_ids = sorted(str(o_.get('_id')) for o_ in out)
+            got_ids = sorted(str(o_.get('_id')) for o_ in got)
+            if want_ids != got_ids:
+                self.list_diff = (dict(attrs), want_ids, got_ids)
+            self.shadow_lists = getattr(self, 'shadow_lists', 0) + 1
+        except Exception:      # pylint: disable=broad-except
+            pass        # (records the codec cannot hold - the malformed stream - are not listed this way)
 
     def get(self, ident, dirty=False):      # pylint: disable=unused-argument
         key = (ident[0], ident[1])
@@ -952,6 +992,14 @@ def run_impl(case, pid):
                 exc = e
                 outcome = classify(e, slash, mod)
             fake._ca.fail_list = False                                                           # pylint: disable=protected-access
+            ld_ = getattr(fake._ca, 'list_diff', None)                                           # pylint: disable=protected-access
+            if ld_ is not None:
+                fake._ca.list_diff = None                                                        # pylint: disable=protected-access
+                run.hits.append(fw.Hit(clause='listing-differs-from-directory', call_site='CellAllocation.list',
+                                       detail='list(%r): the directory holds %r for that cell and partition, the real '
+                                              'CellAllocation.list returned %r' % ld_))
+            if getattr(fake._ca, 'shadow_lists', 0):                                             # pylint: disable=protected-access
+                run.tags.add('real-list-shadowed')
             run.tags.add('%s:%s' % (kind, outcome.split(':')[0] if not outcome.startswith('py:') else outcome))
             if fake._ca.fired:                                                                    # pylint: disable=protected-access
                 # the listing failed: the request fails with the backend's error and the store is as it was
